@@ -938,6 +938,104 @@ theorem config_after_history (s s' : SwitchState) (ms : List Msg) (gs : List (Li
   simp only at k1 k2
   rw [k1, k2]
 
+/-! ## connection-level rejections and data-plane steps between the requests -/
+
+/-- a history of controller messages only is the `run` above -/
+theorem runEv_msgs (s : SwitchState) (ms : List Msg) : runEv s (ms.map .msg) = run s ms := by
+  induction ms generalizing s with
+  | nil => rfl
+  | cons m ms ih =>
+    simp only [List.map_cons, runEv, run, stepEv]
+    cases rxMessage s m with
+    | error e => rfl
+    | ok r => obtain ⟨s1, o⟩ := r; simp only [ih]
+
+/-- a message `OFConnection.read` rejects itself (unknown type: code 1 = BAD_TYPE, undecodable or ill-sized body:
+code 6 = BAD_LEN) is answered with exactly one BAD_REQUEST error carrying ITS xid, and changes nothing -/
+theorem rejected_answered (s : SwitchState) (x c : Nat) : stepEv s (.rejected x c) = .ok (s, [.error x 1 c]) := rfl
+
+theorem applyFlowCtrs_fit (t : List Flow) (cs : List (Nat × Nat)) (h : ∀ f ∈ t, flowEntryLen f ≤ partLimit) :
+    ∀ f ∈ applyFlowCtrs t cs, flowEntryLen f ≤ partLimit := by
+  induction t generalizing cs with
+  | nil => intro f hf; cases cs <;> simp [applyFlowCtrs] at hf
+  | cons a r ih =>
+    cases cs with
+    | nil => intro f hf; exact h f (by simpa [applyFlowCtrs] using hf)
+    | cons c cs' =>
+      obtain ⟨p, b⟩ := c
+      intro f hf
+      simp only [applyFlowCtrs, List.mem_cons] at hf
+      rcases hf with rfl | hf
+      · exact h a List.mem_cons_self
+      · exact ih cs' (fun g hg => h g (List.mem_cons_of_mem _ hg)) f hf
+
+/-- what is written for one event of a mixed history -/
+def EvAnswered : Event → List Reply → Prop
+  | .msg m, g => Answered m g
+  | .rejected x c, g => g = [.error x 1 c]
+  | .badVersion x st, g => g = if st then [.error x 0 0] else []
+  | .traffic _, g => g = []
+
+inductive AllEvAnswered : List Event → List (List Reply) → Prop
+  | nil : AllEvAnswered [] []
+  | cons {e : Event} {g : List Reply} {es : List Event} {gs : List (List Reply)} :
+      EvAnswered e g → AllEvAnswered es gs → AllEvAnswered (e :: es) (g :: gs)
+
+def EvAdmissible (es : List Event) : Prop := ∀ m, Event.msg m ∈ es → m.kind.isSome ∧ m.WF ∧ m.InScope ∧ MsgFits m
+
+/-- **history_events_partial**: the same over histories in which the requests are interleaved with data-plane traffic
+(which moves the counters the statistics replies report) and with messages the connection rejects: every request still
+gets exactly one complete answer with its xid — computed from the state at that moment, traffic included (`one_reply`
+holds in every state) —, every rejected message exactly one error with ITS xid, traffic writes nothing. -/
+theorem history_events_partial (s : SwitchState) (es : List Event) (h : EvAdmissible es) (hfit : FlowsFit s) :
+    ∃ s' gs, runEv s es = .ok (s', gs) ∧ AllEvAnswered es gs := by
+  induction es generalizing s with
+  | nil => exact ⟨s, [], rfl, .nil⟩
+  | cons e es ih =>
+    have hrest : EvAdmissible es := fun m hm => h m (List.mem_cons_of_mem _ hm)
+    cases e with
+    | msg m =>
+      obtain ⟨hk, hwf, hsc, hmf⟩ := h m List.mem_cons_self
+      obtain ⟨s1, o, e1, c1⟩ := handled_partial s m hk hwf hsc hfit
+      obtain ⟨s2, gs, e2, f2⟩ := ih s1 hrest (step_fit e1 hmf hfit)
+      refine ⟨s2, o :: gs, ?_, .cons ⟨c1, ?_⟩ f2⟩
+      · simp only [runEv, stepEv, e1, e2]
+      · intro hr
+        obtain ⟨g, h1, h2, _⟩ := one_reply s m hr hwf hfit
+        rw [h1] at e1
+        injection e1 with e1; injection e1 with _ e1
+        rw [← e1]; exact h2
+    | rejected x c =>
+      obtain ⟨s2, gs, e2, f2⟩ := ih s hrest hfit
+      exact ⟨s2, _ :: gs, by simp only [runEv, stepEv, e2]; rfl, .cons rfl f2⟩
+    | badVersion x st =>
+      obtain ⟨s2, gs, e2, f2⟩ := ih s hrest hfit
+      exact ⟨s2, _ :: gs, by simp only [runEv, stepEv, e2]; rfl, .cons rfl f2⟩
+    | traffic n =>
+      have hf : FlowsFit (applySnapshot s n) := applyFlowCtrs_fit s.table n.flows hfit
+      obtain ⟨s2, gs, e2, f2⟩ := ih (applySnapshot s n) hrest hf
+      exact ⟨s2, [] :: gs, by simp only [runEv, stepEv, e2], .cons rfl f2⟩
+
+/-! ## what the current code does not do (proposed finding C13-4) -/
+
+/-- the standard (OpenFlow 1.0 §5.4.2, OFPET_BAD_ACTION): a flow_mod whose action list contains an action type the switch
+does not implement is refused with BAD_ACTION (2) / BAD_TYPE (0) -/
+def FlowModActionSpec (s : SwitchState) (x : Nat) (acts : List Act) : Prop :=
+  (∃ a ∈ acts, actionTable.lookup a.ty = none) →
+    rxMessage s (.flowMod x 0 none 1 0 0 0 0 65535 none acts) = .ok (s, [.error x 2 0])
+
+/-- the switch (code and model) installs such a flow silently (`_flow_mod_add` does not look at the actions,
+switch.py); the error then appears, with xid 0, each time a packet hits the entry -/
+theorem flow_mod_bad_action_defect : ¬ FlowModActionSpec demoState 7 [⟨65535, 0, 16⟩] := by
+  intro h
+  have h2 := h ⟨_, List.mem_singleton.mpr rfl, rfl⟩
+  have h3 : ∃ s', rxMessage demoState (.flowMod 7 0 none 1 0 0 0 0 65535 none [⟨65535, 0, 16⟩]) = .ok (s', []) := ⟨_, rfl⟩
+  obtain ⟨s', h3⟩ := h3
+  rw [h3] at h2
+  injection h2 with h2
+  injection h2 with _ h2
+  cases h2
+
 /-! ## non-vacuity -/
 
 example : IsRequest (.statsRequest 5 (.queue 9 3)) ∧ Msg.WF (.statsRequest 5 (.queue 9 3)) := ⟨trivial, trivial⟩
@@ -958,30 +1056,38 @@ example : bufferLive { demoState with buffers := [true, false] } 1 = true ∧
 /-- the hypotheses of the history theorems hold for a concrete mixed history and state -/
 example : Admissible [.hello 1, .echoRequest 2 [1, 2, 3], .flowMod 3 0 (some 1) 5 9 1 0 0 65535 (some 4) [⟨0, 65533, 8⟩],
     .statsRequest 4 (.other 65535), .portMod 5 1 7 1 1, .barrierRequest 6, .packetOut 7 (some 1) false [⟨65535, 0, 16⟩]] ∧
-    PortsUnique demoState := by
-  refine ⟨?_, by show ([1] : List Nat).Nodup; decide⟩
+    PortsUnique demoState ∧ FlowsFit demoState := by
+  refine ⟨?_, by show ([1] : List Nat).Nodup; decide, by intro f hf; simp [demoState] at hf; subst hf; decide⟩
   intro m hm
   simp only [List.mem_cons, List.mem_nil_iff, or_false] at hm
   rcases hm with rfl | rfl | rfl | rfl | rfl | rfl | rfl
-  · exact ⟨rfl, trivial, trivial⟩
-  · exact ⟨rfl, trivial, trivial⟩
-  · refine ⟨rfl, trivial, ?_⟩
+  · exact ⟨rfl, trivial, trivial, trivial⟩
+  · exact ⟨rfl, trivial, trivial, trivial⟩
+  · refine ⟨rfl, trivial, ?_, by show 88 + 8 ≤ 65523; decide⟩
     intro a ha; simp only [List.mem_singleton] at ha; subst ha; decide
-  · exact ⟨rfl, by show (6 : Nat) ≤ 65535; decide, trivial⟩
-  · exact ⟨rfl, trivial, trivial⟩
-  · exact ⟨rfl, trivial, trivial⟩
-  · refine ⟨rfl, trivial, ?_⟩
+  · exact ⟨rfl, by show (6 : Nat) ≤ 65535; decide, trivial, trivial⟩
+  · exact ⟨rfl, trivial, trivial, trivial⟩
+  · exact ⟨rfl, trivial, trivial, trivial⟩
+  · refine ⟨rfl, trivial, ?_, trivial⟩
     intro a ha; simp only [List.mem_singleton] at ha; subst ha; decide
+/-- a multipart reply: three flows of 30000 bytes each do not fit into one message — two parts, REPLY_MORE on the first -/
+example : (rxMessage { demoState with table := [{ mkey := none, priority := 3, cookie := 1, flags := 0, outs := [], actsLen := 29912 },
+                                              { mkey := none, priority := 2, cookie := 2, flags := 0, outs := [], actsLen := 29912, packets := 7, bytes := 420 },
+                                              { mkey := some 4, priority := 1, cookie := 3, flags := 0, outs := [], actsLen := 29912 }] }
+      (.statsRequest 9 (.flow none 255 65535))).map (·.2) =
+    .ok ([.statsReply 9 1 true (.flows [{ mkey := none, priority := 3, cookie := 1, flags := 0, outs := [], actsLen := 29912 },
+                                            { mkey := none, priority := 2, cookie := 2, flags := 0, outs := [], actsLen := 29912, packets := 7, bytes := 420 }]),
+             .statsReply 9 1 false (.flows [{ mkey := some 4, priority := 1, cookie := 3, flags := 0, outs := [], actsLen := 29912 }])]) := by rfl
 /-- a whole sequence: add a flow, read the table, barrier, delete with notification, read again -/
 example : (run demoState
     [.flowMod 1 0 none 9 42 1 0 0 65535 none [⟨0, 3, 8⟩], .statsRequest 2 .table, .barrierRequest 3,
      .flowMod 4 3 none 0 0 0 0 0 65535 none [], .statsRequest 5 (.aggregate none 0 65535), .portMod 6 1 0x020000010001 1 1,
      .packetOut 7 none true [⟨0, 65533, 8⟩, ⟨65535, 0, 16⟩], .hello 8, .queueGetConfigRequest 9 4,
      .packetOut 10 (some 1) false [⟨0, 2, 8⟩], .packetOut 11 (some 1) false [], .packetOut 12 (some 5) false []]).map (·.2) =
-    .ok [[], [.statsReply 2 3 (.table 3 2 0 0)], [.barrierReply 3],
-         [.flowRemoved { mkey := none, priority := 9, cookie := 42, flags := 1, outs := [3] } 2,
+    .ok [[], [.statsReply 2 3 false (.table 3 2 0 0)], [.barrierReply 3],
+         [.flowRemoved { mkey := none, priority := 9, cookie := 42, flags := 1, outs := [3], actsLen := 8 } 2,
           .flowRemoved { mkey := some 1, priority := 5, cookie := 77, flags := 1, outs := [2] } 2],
-         [.statsReply 5 2 (.aggregate 0)], [.portStatus 2 { no := 1, hw := 0x020000010001, config := 3, state := 1 }],
+         [.statsReply 5 2 false (.aggregate 0 0 0)], [.portStatus 2 { no := 1, hw := 0x020000010001, config := 3, state := 1 }],
          [.packetIn (some 1), .error 7 2 0], [], [.error 9 5 0], [], [.error 11 1 7], [.error 12 1 8]] := by rfl
 
 end Pox.C13
